@@ -45,6 +45,12 @@ def configs(tier):
         for seqs in (("as", "as"), ("aL", "s"), ("s", "O")):
             out.append(({"producers": list(seqs), "max_ops": 250, "window": 1.0, "policy": pol},
                         {"thread": 1, "timer": 1, "total": 1} if quick else b2, cap))
+    # a failing call: every synchronous caller is released with the failure, never with a false success;
+    # one preemption at any line of state.py / threading.py
+    for seqs in (("s",), ("as",), ("s", "s")):
+        units = out
+        units.append(({"producers": list(seqs), "max_ops": 250, "window": 1.0, "fail_at": 1, "fail_cls": "runtime",
+                       "line": True, "timer": False, "horizon": 30.0}, {"thread": 1 if quick else 2}, cap))
     if not quick:
         for seqs in P3:
             out.append(({"producers": list(seqs), "max_ops": 2, "window": 1.0},
@@ -61,7 +67,8 @@ def run(ctx):
     cov["bounds"] = ("1-2 producers (3 in thorough) x <=4 create_checkpoint calls each over {async/sync small, "
                      "sync/async large, sync/async oversize, sync/async empty}; max_batch_operations in {1,2,250}; "
                      "size limit 400 bytes; window 1.0/0.3 s; all schedules with <=2 (quick) / <=3 (thorough) "
-                     "deviations (thread choices + 'timeout fires first'); policies rtb/low/high")
+                     "deviations (thread choices + 'timeout fires first'); policies rtb/low/high; three configurations with a failing "
+                     "call under line-level preemption in state.py/threading.py")
     cov["explanation"] = ("each trace is an execution of the real ExecutionState.create_checkpoint / "
                           "checkpoint_batches_forever against a recording service client")
     return {"coverage": cov, "violations": viols, "internal": internal,
